@@ -265,6 +265,17 @@ func (w *World) Func(q string) *FuncInfo {
 	return fi
 }
 
+// Peek is Func without recording the name as mentioned by a rule (used when a
+// rule merely looks at whatever helpers a function happens to call).
+func (w *World) Peek(q string) *FuncInfo {
+	was := mentioned[q]
+	f := w.Func(q)
+	if !was {
+		delete(mentioned, q)
+	}
+	return f
+}
+
 // FuncOf returns the body of a function object if its package was loaded with syntax.
 func (w *World) FuncOf(obj *types.Func) *FuncInfo {
 	if obj == nil || obj.Pkg() == nil {
